@@ -75,13 +75,29 @@ def oracle(case, line):
             if tree != want or n != len(data) or unordered:
                 bad.append(("roundtrip-" + name, "%s reader does not return the encoded tree / consume exactly the encoding" % name))
     if want is not None:
+        d = nesting_depth(want)
         if kn is not None and kn != len(data):
             bad.append(("roundtrip-k", "skip reader does not consume exactly the encoding"))
+        if kn is None and d < 128:
+            bad.append(("roundtrip-k", "skip reader rejects the encoding of a tree nested below its stack limit"))
+        for name, dd in (("c", c), ("s", s)):
+            if dd is None and d < 1024 and max_string(want) <= (1 << 25):
+                bad.append(("roundtrip-" + name, "%s reader rejects the encoding of a well-formed tree" % name))
     if c and s and (c[0] != s[0] or c[2] != s[2]):
         bad.append(("decoders-disagree-cs", "buffer and stream decoders accept the same input with different results"))
     if c and kn is not None and c[0] != kn:
         bad.append(("decoders-disagree-ck", "buffer decoder and skip reader consume different lengths"))
     return bad
+
+
+def max_string(t):
+    if isinstance(t, bytes):
+        return len(t)
+    if isinstance(t, list):
+        return max([max_string(x) for x in t] or [0])
+    if isinstance(t, tuple):
+        return max([max(len(k), max_string(v)) for k, v in t[1]] or [0])
+    return 0
 
 
 def nesting_depth(t):
